@@ -271,6 +271,36 @@ theorem setOptions_rel {e₁ e₂ : Editor D L} (h : EdMetaEq e₁ e₂) (o : Op
   · exact leaveIfEmpty_rel env ⟨rfl, by meq⟩
   · exact leaveIfEmpty_rel env ⟨rfl, by meq⟩
 
+/-- `Editor::revalidate_selecting` (F32 repair, the last step of the option / layout / dictionary calls):
+    the page count it reads depends on neither the clock nor the flush level -/
+theorem revalidate_rel {e₁ e₂ : Editor D L} (h : EdMetaEq e₁ e₂) :
+    ORel EdMetaEq (e₁.revalidate env) (e₂.revalidate env) := by
+  obtain ⟨t, k, rfl⟩ := h.out
+  obtain ⟨a, st⟩ := e₁
+  have leaf : ∀ (x : Shared D L) (st' : St), ORel EdMetaEq (.ok { shared := x, state := st' })
+      (.ok { shared := sm x t k, state := st' }) := fun x st' => ⟨rfl, MetaEq.of_sm x t k⟩
+  cases st with
+  | selecting s =>
+    simp only [Editor.revalidate, totalPage_sm]
+    cases Selecting.totalPage env s a with
+    | ok tp =>
+      dsimp only
+      split2
+      · exact leaf _ _
+      · split2
+        · exact leaf _ _
+        · exact leaf _ _
+    | panic q => rfl
+    | outOfFuel => trivial
+  | entering => exact leaf _ _
+  | enteringSyllable => exact leaf _ _
+  | highlighting m => exact leaf _ _
+
+/-- … with the call's return value attached -/
+theorem revalidate_erel {e₁ e₂ : Editor D L} (h : EdMetaEq e₁ e₂) (v : Value) :
+    ORel ERel ((e₁.revalidate env).map fun e' => (e', v)) ((e₂.revalidate env).map fun e' => (e', v)) :=
+  orel_map (revalidate_rel env h) fun _ _ hm => ⟨hm, rfl⟩
+
 /-! ### every operation -/
 
 /-- **the step property**: related editors answer every operation alike -/
@@ -299,18 +329,27 @@ theorem applyR_rel (hE : MetaBlindEnv env) {e₁ e₂ : Editor D L} (h : EdMetaE
   | clearSyl =>
     obtain ⟨t, k, rfl⟩ := h.out
     exact ⟨leaveIfEmpty_rel env ⟨rfl, by meq⟩, rfl⟩
-  | setOptions o => exact ⟨setOptions_rel env h o, rfl⟩
+  | setOptions o => exact revalidate_erel env (setOptions_rel env h o) _
   | setLayout l =>
     obtain ⟨t, k, rfl⟩ := h.out
-    exact ⟨leaveIfEmpty_rel env ⟨rfl, by meq⟩, rfl⟩
+    exact revalidate_erel env (e₁ := e₁.setLayout env l)
+      (e₂ := Editor.setLayout env { shared := sm e₁.shared t k, state := e₁.state } l)
+      (leaveIfEmpty_rel env ⟨rfl, MetaEq.of_sm _ t k⟩) _
   | setEngine g =>
     obtain ⟨t, k, rfl⟩ := h.out
     exact ⟨⟨rfl, by meq⟩, rfl⟩
   | learn ks p =>
-    refine orel_map (learnPhrase_rel env hE h.2 ks p) ?_
-    intro x y ⟨hm, hv⟩
-    exact ⟨⟨h.1, hm⟩, by dsimp only; rw [hv]⟩
-  | unlearn ks p => exact ⟨⟨h.1, unlearnPhrase_rel env h.2 ks p⟩, rfl⟩
+    simp only [Editor.applyR]
+    rcases (learnPhrase_rel env hE h.2 ks p).cases with ⟨⟨x, u⟩, ⟨y, v⟩, h1, h2, hm, hv⟩ | ⟨q, h1, h2⟩ | ⟨h1, h2⟩ <;>
+      rw [h1, h2]
+    · dsimp only at hm hv
+      subst hv
+      exact revalidate_erel env (e₁ := { e₁ with shared := x }) (e₂ := { e₂ with shared := y }) ⟨h.1, hm⟩ _
+    · rfl
+    · trivial
+  | unlearn ks p =>
+    exact revalidate_erel env (e₁ := { e₁ with shared := Shared.unlearnPhrase env e₁.shared ks p })
+      (e₂ := { e₂ with shared := Shared.unlearnPhrase env e₂.shared ks p }) ⟨h.1, unlearnPhrase_rel env h.2 ks p⟩ _
   | jump w => exact hval .bool (jump_rel env h w)
 
 /-- the step property in the form `ResetFreshModuloClock` (Props/C17) asks for, all 14 operations -/
